@@ -428,8 +428,8 @@ fn replay(path: &str, show_trace: bool) -> i32 {
             rc.keep_job_states = true;
             rc.state_hash = hash;
             let jobs = vec![
-                engine::Job { program: a.clone(), bounds: vec![0], tag: "a".into() },
-                engine::Job { program: b.clone(), bounds: vec![0], tag: "b".into() },
+                engine::Job { program: a.clone(), bounds: vec![0], dev_bounds: vec![], tag: "a".into() },
+                engine::Job { program: b.clone(), bounds: vec![0], dev_bounds: vec![], tag: "b".into() },
             ];
             let agg = engine::run_jobs(jobs, |_, _| vec![], |_, _| true, rc);
             let mut sa: Vec<u64> = agg.job_states.get(&0).map(|s| s.iter().copied().collect()).unwrap_or_default();
